@@ -25,6 +25,16 @@ import VotelibProofs.Lemmas.RenameScoreMJ
 import VotelibProofs.Lemmas.PermSTV8
 import VotelibProofs.Lemmas.PermTrans
 import VotelibProofs.Lemmas.PermSymmetric2
+import VotelibProofs.Lemmas.PermQuotaSubtract
+import VotelibProofs.Lemmas.PermRankedPairsWitness
+import VotelibProofs.Lemmas.PermBaldwin
+import VotelibProofs.Lemmas.PermTideman
+import VotelibProofs.Lemmas.PermStar4
+import VotelibProofs.Lemmas.RenameStar
+import VotelibProofs.Lemmas.RenameBucklin2
+import VotelibProofs.Lemmas.RenameBenham
+import VotelibProofs.Lemmas.RenameBaldwin
+import VotelibProofs.Lemmas.PermSymmetric3
 namespace VL.C10
 open VL
 
@@ -495,6 +505,114 @@ theorem majority_judgment_rename_mono_partial (σ : Cand → Cand) (hmono : Stri
     (p : Score.SProfile) (n : Nat) :
     Score.majorityJudgment tb cfg (Perm.renScore σ p) n = (Score.majorityJudgment tb cfg p n).map (List.map (renSlot σ)) :=
   Perm.majorityJudgment_rename_mono hmono tb cfg p n
+
+/-! ## every over-award policy of QuotaDistributor / LargestRemainder (`subtract` included) -/
+
+/-- **QuotaDistributor: ballot-order independence for every over-award policy**: the same dict up to insertion order -/
+theorem quota_distributor_perm_all (cfg : QD.Cfg) {v₁ v₂ : Votes} (h : v₁.Perm v₂) (hnd : (v₁.map (·.1)).Nodup) (n : Nat)
+    (prev maxS : QD.IMap) :
+    ExceptEquiv (fun r₁ r₂ => r₁.Perm r₂ ∧ (r₁.map (·.1)).Nodup) (QD.quotaDistribute cfg v₁ n prev maxS)
+      (QD.quotaDistribute cfg v₂ n prev maxS) := Perm.quotaDistribute_perm_all cfg h hnd n prev maxS
+
+/-- **LargestRemainder: ballot-order independence for every over-award policy** -/
+theorem largest_remainder_perm_all (cfg : QD.Cfg) {v₁ v₂ : Votes} (h : v₁.Perm v₂) (hnd : (v₁.map (·.1)).Nodup) (n : Nat)
+    (prev maxS : QD.IMap) (hprev : (prev.map (·.1)).Nodup) :
+    ExceptEquiv Perm.DistEquiv (QD.largestRemainder cfg v₁ n prev maxS) (QD.largestRemainder cfg v₂ n prev maxS) :=
+  Perm.largestRemainder_perm_all cfg h hnd n prev maxS hprev
+
+/-! ## ranked pairs under the literal premise of the property: FALSE for pairwise ties
+  `Perm.MajoritiesDistinct sc v`: the strict pairwise wins of `v` have pairwise distinct strengths.  Two candidates tied pairwise
+  (no majority between them) are ranked in the order of the dictionary: `ranked_pairs_perm` needs `Perm.RPDistinct`. -/
+
+theorem ranked_pairs_pairwise_tie_order_witness :
+    ¬ ∀ (sc : Condorcet.Scorer) (v₁ v₂ : Condorcet.Pairwise) (n : Nat), v₁.Perm v₂ → (v₁.map (·.1)).Nodup →
+      Perm.MajoritiesDistinct sc v₁ →
+      ExceptEquiv SlotsEquiv (Condorcet.rankedPairs sc v₁ n) (Condorcet.rankedPairs sc v₂ n) :=
+  Perm.rankedPairs_pairwise_tie_order_witness
+
+/-! ## Baldwin (model of C08), Benham and Tideman alternative (one-seat models of C05), STAR (model of C12) -/
+
+/-- **Baldwin: ballot-order independence** (`C08.RankedWF`: duplicate-free ballots, no empty shared rank) -/
+theorem baldwin_perm {p₁ p₂ : Convert.RProfile} (h : p₁.Perm p₂) (hwf : C08.RankedWF p₁) (n : Nat) :
+    ExceptEquiv SlotsEquiv (ShapeSeq.baldwin p₁ n) (ShapeSeq.baldwin p₂ n) := Perm.baldwin_perm h hwf n
+
+/-- **Baldwin: renaming equivariance** for every injective renaming -/
+theorem baldwin_rename (σ : Cand → Cand) (hσ : Function.Injective σ) (p : Convert.RProfile) (hwf : C08.RankedWF p) (n : Nat) :
+    ExceptEquiv SlotsEquiv (ShapeSeq.baldwin (Perm.renRProfile σ p) n) ((ShapeSeq.baldwin p n).map (List.map (renSlot σ))) :=
+  Perm.baldwin_ren σ hσ p hwf n
+
+/-- **Benham: ballot-order independence** — no hypothesis on the profile -/
+theorem benham_perm {p₁ p₂ : Condorcet.Profile} (h : p₁.Perm p₂) :
+    ExceptEquiv SlotsEquiv (Condorcet.benham p₁) (Condorcet.benham p₂) := Perm.benham_perm h
+
+/-- **Tideman alternative (Smith or Schwartz tiers): ballot-order independence** — the very same answer -/
+theorem tideman_perm (smith : Bool) {p₁ p₂ : Condorcet.Profile} (h : p₁.Perm p₂) :
+    Condorcet.tideman smith p₁ = Condorcet.tideman smith p₂ := Perm.tideman_perm smith h
+
+/-- **STAR: ballot-order independence**, every configuration, no hypothesis on the profile -/
+theorem star_perm (ac : Nat) (af : Rat) (cfg : Score.Cfg) {p₁ p₂ : Score.SProfile} (h : p₁.Perm p₂) (n : Nat) :
+    ExceptEquiv SlotsEquiv (Score.star ac af cfg p₁ n) (Score.star ac af cfg p₂ n) := Perm.star_perm ac af cfg h n
+
+/-- Baldwin without shared ranks (the family's profiles): the renamed outcome exactly, refusals included -/
+theorem baldwin_rename_noshared (σ : Cand → Cand) (hσ : Function.Injective σ) (p : Convert.RProfile) (h : Perm.Bald.NoShared p)
+    (n : Nat) : ShapeSeq.baldwin (Perm.renRProfile σ p) n = (ShapeSeq.baldwin p n).map (List.map (renSlot σ)) :=
+  Perm.baldwin_ren_noshared σ hσ p h n
+
+/-- **Symmetric candidates under Baldwin** -/
+theorem baldwin_symmetric_candidates (σ : Cand → Cand) (hσ : Function.Injective σ) (p : Convert.RProfile) (hwf : C08.RankedWF p)
+    (hsym : p.Perm (Perm.renRProfile σ p)) (n : Nat) (r : List Slot) (hr : ShapeSeq.baldwin p n = .ok r) (c : Cand) :
+    (Perm.Elected (σ c) r ↔ Perm.Elected c r) ∧ (Perm.InTie (σ c) r ↔ Perm.InTie c r) :=
+  Perm.baldwin_symmetric σ hσ p hwf hsym n r hr c
+
+/-- **Benham: renaming equivariance** (`Perm.Hyb.CanonP`: shared ranks listed in ascending order, the protocol convention;
+    `Perm.Hyb.renProfileH` renames the C05 model's profile type, re-sorting shared ranks) -/
+theorem benham_rename (σ : Cand → Cand) (hσ : Function.Injective σ) {p : Condorcet.Profile} (hp : Perm.Hyb.CanonP p) :
+    ExceptEquiv SlotsEquiv (Condorcet.benham (Perm.Hyb.renProfileH σ p)) ((Condorcet.benham p).map (List.map (renSlot σ))) :=
+  Perm.benham_ren σ hσ hp
+
+/-- **Tideman alternative: renaming equivariance** — the renamed answer exactly -/
+theorem tideman_rename (σ : Cand → Cand) (hσ : Function.Injective σ) (smith : Bool) {p : Condorcet.Profile} (hp : Perm.Hyb.CanonP p) :
+    Condorcet.tideman smith (Perm.Hyb.renProfileH σ p) = (Condorcet.tideman smith p).map (List.map (renSlot σ)) :=
+  Perm.tideman_ren σ hσ smith hp
+
+/-- **STAR: renaming equivariance** for every injective renaming (non-negative ballot counts) -/
+theorem star_rename (σ : Cand → Cand) (hσ : Function.Injective σ) (ac : Nat) (af : Rat) (cfg : Score.Cfg) (p : Score.SProfile)
+    (hnn : ∀ bn ∈ p, 0 ≤ bn.2) (n : Nat) :
+    ExceptEquiv (fun r' r => SlotsEquiv r' (r.map (renSlot σ)))
+      (Score.star ac af cfg (Perm.renScore σ p) n) (Score.star ac af cfg p n) := Perm.star_rename hσ ac af cfg p hnn n
+
+/-- the same with the renamed ballots in any order, each listing its (candidate, score) pairs in any order -/
+theorem star_rename_relisted (σ : Cand → Cand) (hσ : Function.Injective σ) (ac : Nat) (af : Rat) (cfg : Score.Cfg)
+    (p p' q : Score.SProfile) (hnn : ∀ bn ∈ p, 0 ≤ bn.2) (h₁ : p'.Perm q) (h₂ : Perm.Star.Relisted q (Perm.renScore σ p)) (n : Nat) :
+    ExceptEquiv (fun r' r => SlotsEquiv r' (r.map (renSlot σ))) (Score.star ac af cfg p' n) (Score.star ac af cfg p n) :=
+  Perm.star_rename_relisted hσ ac af cfg p p' q hnn h₁ h₂ n
+
+/-! ## Bucklin / Oklahoma: `PreferenceAddition(coefficients, split_equal_rankings)`, n seats (model of C08) -/
+
+/-- **PreferenceAddition: ballot-order independence** for every coefficient sequence, with and without decoupling of shared
+    ranks (distinct ballots — a dict) -/
+theorem preference_addition_perm (coef : Nat → Rat) (split : Bool) {p₁ p₂ : Convert.RProfile} (hp : p₁.Perm p₂)
+    (hn : (p₁.map (·.1)).Nodup) (n : Nat) :
+    ExceptEquiv SlotsEquiv (ShapeSeq.preferenceAddition coef split p₁ n) (ShapeSeq.preferenceAddition coef split p₂ n) :=
+  Perm.preferenceAddition_perm coef split hp hn n
+
+/-- the decoupled profile itself: the same dict up to insertion order -/
+theorem decouple_perm {p₁ p₂ : Convert.RProfile} (hp : p₁.Perm p₂) (hn : (p₁.map (·.1)).Nodup) :
+    (ShapeSeq.decouple p₁).Perm (ShapeSeq.decouple p₂) ∧ ((ShapeSeq.decouple p₁).map (·.1)).Nodup := Perm.decouple_perm hp hn
+
+/-- the list itself does depend on the order: tie members / candidates elected in one round come in dict order -/
+theorem preference_addition_order_witness :
+    ¬ ∀ (p₁ p₂ : Convert.RProfile) (n : Nat), p₁.Perm p₂ → (p₁.map (·.1)).Nodup →
+      ShapeSeq.preferenceAddition ShapeSeq.coefBucklin false p₁ n = ShapeSeq.preferenceAddition ShapeSeq.coefBucklin false p₂ n :=
+  Perm.preferenceAddition_order_witness
+
+/-- **PreferenceAddition: renaming equivariance** for every injective renaming (`hn`: the renamed ballots are still distinct
+    — automatic when shared ranks are in canonical order) -/
+theorem preference_addition_rename (σ : Cand → Cand) (hσ : Function.Injective σ) (coef : Nat → Rat) (split : Bool)
+    {p : Convert.RProfile} (hwf : Perm.RankedWF p) (hn : ((Perm.renRProfile σ p).map (·.1)).Nodup) (n : Nat) :
+    ExceptEquiv (fun r' r => SlotsEquiv r' (r.map (renSlot σ)))
+      (ShapeSeq.preferenceAddition coef split (Perm.renRProfile σ p) n) (ShapeSeq.preferenceAddition coef split p n) :=
+  Perm.preferenceAddition_rename hσ coef split hwf hn n
 
 /-! ## the symmetric-candidates corollary
   A renaming σ that maps the election onto a reordering of itself is a symmetry of the election (e.g. the transposition of two
